@@ -462,6 +462,40 @@ fn far_future_scenario(mon: &mut C09, case_seed: u64, r: &mut Rng, fixed: Option
     }
 }
 
+/// The two genesis configurations the crate ships (`std_mainnet`, and `std_testnet` parsed from the bundled YAML) are
+/// realized, sealed, continued for a few blocks with and without a proposer action, re-applied as blocks, restarted with
+/// `from_block` and offered an empty proof - every call under the monitor.
+fn std_genesis_probe(mon: &mut C09) {
+    for (name, make) in [("std_mainnet", melstf::GenesisConfig::std_mainnet as fn() -> melstf::GenesisConfig), ("std_testnet", melstf::GenesisConfig::std_testnet as fn() -> melstf::GenesisConfig)] {
+        mon.journal(&format!("C09 probe genesis {}", name));
+        mon.rep.eval();
+        mon.rep.count("shipped genesis configurations realized and continued");
+        let res = guarded(move || {
+            let db = new_db();
+            let cfg = make();
+            let mut sealed = cfg.realize(&db).seal(None);
+            let mut heights = vec![];
+            for i in 0..4u8 {
+                let action = if i % 2 == 1 { Some(melstructs::ProposerAction { fee_multiplier_delta: if i == 1 { 127 } else { -128 }, reward_dest: melstructs::Address(tmelcrypt::HashVal([i; 32])) }) } else { None };
+                let next = sealed.next_unsealed().seal(action);
+                let blk = next.to_block();
+                let applied = sealed.apply_block(&blk).map(|s| s.header());
+                assert_eq!(applied.ok(), Some(next.header()), "honest block on a shipped genesis refused or altered");
+                let stakes = next.raw_stakes();
+                let back = melstf::SealedState::from_block(&blk, &stakes, &db);
+                assert_eq!(back.header(), next.header(), "from_block on a shipped genesis gives another header");
+                let _ = next.confirm(Default::default());
+                heights.push(next.header().height.0);
+                sealed = next;
+            }
+            heights
+        });
+        if let Err(p) = res {
+            mon.rep.violate(&format!("C09|panic:{}:{}|genesis+seal+apply_block+from_block|shipped-genesis:{}", p.origin, msg_class(&p.message), name), format!("a call on the shipped genesis configuration {} panicked: {}", name, p.message), json!({"genesis": name, "location": p.location}));
+        }
+    }
+}
+
 /// Coins locked by adversarial covenant programs, spent through apply_tx: the interpreter and the
 /// weigher run inside validation, so whatever a program does there must end in accept or reject.
 fn covenant_scenario(mon: &mut C09, case_seed: u64) {
@@ -709,6 +743,7 @@ pub fn run(p: &Params) -> Report {
     mon.rep.rule = "cases = API calls (apply_tx_batch, seal, next_unsealed, apply_block, confirm, from_block+header) on random histories over all network classes and fabricated heights with: one hostile mutation per batch (16 field-level mutators + byte-level mutation of the serialization that still deserializes), degenerate requests (zero-valued swaps/deposits/withdrawals, empty/garbage/partial MelPoW proofs at difficulties 0..2^32, undecodable stake documents, faucet-minted liquidity tokens, maximal values), every proposer delta class, multipliers 0..2^40; coins locked by adversarial covenant programs (self-append doubling up to 2^60 elements, nested loops, random bytes/instructions, environment digging, slices/references/updates at, inside and beyond the ends with indexes in either order) spent through apply_tx, sometimes next to a listed-only covenant whose weight is beyond 128 bits; histories in which a user creates (and empties) the ERG/SYM pool before the rules enable the built-in one; histories at heights 5 to 22 million (the subsidy halving away) and one across block 128 950 000 (the 128th halving); transactions with 255/256/257/up to 700 inputs of existing coins, 255/256 outputs and hundreds of covenants and signature slots; every call runs under catch_unwind with a panic hook that records message, location and originating crate; each shard is its own process with a journal so an abort is attributed. Supply per denomination is kept below 2^127 by construction. Non-trivial = batch with a hostile or degenerate member; distinct by member hashes".into();
     if p.shard == 0 && p.only_case.is_none() {
         probes(&mut mon);
+        std_genesis_probe(&mut mon);
         let mut r = Rng::new(0xfa7);
         far_future_scenario(&mut mon, 7300, &mut r, Some((NetID::Custom02, 128_949_997)));
     }
